@@ -75,10 +75,9 @@ def r2_r4(ctx, F, hub):
     if len(locks) != 1:
         ctx.missing('C10.R2', 'handle_put -> with_commit_lock (exactly one)')
     lb, lt = locks[0]
-    hash_i = next((i for i in range(1, b.argc + 1) if b.local_ty(i) == '[u8; 32]'), None)
-    len_i = next((i for i in range(1, b.argc + 1) if b.local_ty(i) == 'u64'), None)
-    if hash_i is None or len_i is None:
-        ctx.missing('C10.R2', 'handle_put parameters hash:[u8;32] / len:u64')
+    # the declared hash / length: handle_put's [u8; 32] and u64 parameters, or those fields of a request-header struct parameter
+    is_claim = lambda os_: request_value(F, b, os_, '[u8; 32]')
+    is_len_val = lambda os_: request_value(F, b, os_, 'u64')
     updates = fl.calls_to('blake3::Hasher::update')
     hashers = set()
     for ub, ut in updates:
@@ -94,7 +93,6 @@ def r2_r4(ctx, F, hub):
                     if fo and fo <= hashers:
                         return True
             return False
-        is_claim = lambda os_: bool(os_) and all(o.kind == 'param' and o.key == hash_i and not o.path for o in os_)
         if (is_final(o0) and is_claim(o1)) or (is_final(o1) and is_claim(o0)):
             eq, ne = eq_edges(fl, cb)
             equal |= eq
@@ -147,7 +145,7 @@ def r2_r4(ctx, F, hub):
         for o in fl.origins(rt['args'][0]):
             if o.kind == 'call' and o.key == 'std::io::Read::take':
                 lo = call_arg_origins(fl, o.bb, 1)
-                if lo and all(x.kind == 'param' and x.key == len_i and not x.path for x in lo):
+                if is_len_val(lo):
                     take_ok = True
                     read_blocks.add(rb)
     # the read that sits in a loop (a primed `while n != 0` has one before the loop and one at the end of the body)
@@ -183,7 +181,7 @@ def r2_r4(ctx, F, hub):
             rv = st['rv']
             if rv['k'] == 'bin' and rv['op'] in ('Eq', 'Ne'):
                 oa, ob = fl.origins(rv['ops'][0]), fl.origins(rv['ops'][1])
-                is_len = lambda os_: bool(os_) and all(o.kind == 'param' and o.key == len_i for o in os_ if o.kind != 'op')
+                is_len = lambda os_: is_len_val([o for o in os_ if o.kind != 'op'])
                 is_cnt = lambda os_: any((o.kind == 'call' and o.key in ('std::io::Read::read', 'std::io::copy', 'std::fs::Metadata::len', 'std::io::Take::<T>::limit')) for o in os_)
                 if (is_len(oa) and is_cnt(ob)) or (is_len(ob) and is_cnt(oa)):
                     oc = fl.outcomes(None, st['dst']['l'])
